@@ -121,7 +121,8 @@ def check(model: Model, run: Run) -> None:
         # dispatcher shape: context class + id comparison over options.choices
         bfi = model.find_method(base, "unpack")
         src = ast.unparse(bfi.node) if bfi else ""
-        ok = bfi is not None and "CONTEXT_SPECIFIC" in src and f".{idattr} ==" in src and "options.choices" in src
+        import re as _re
+        ok = bfi is not None and "CONTEXT_SPECIFIC" in src and bool(_re.search(rf"\.{idattr}\s*(==|!=)|(==|!=)\s*[\w.]+\.{idattr}\b", src)) and "options.choices" in src and "tag_number" in src
         run.ob("D4-choice-dispatcher", ok, {"base": short(base)})
         if not ok:
             run.fail(Finding("D4-choice-dispatcher", base + ".unpack", "dispatcher shape", f"{short(base)}.unpack does not dispatch on the context tag number over options.choices", ""))
@@ -237,6 +238,10 @@ def default_choices(model: Model, base: str) -> List[str]:
                     for n in ast.walk(f.default_factory):
                         if isinstance(n, ast.Name):
                             out.append(n.id)
+                            # a named factory function: the classes it mentions
+                            q = model.resolve_name(c.module, n.id)
+                            if q in model.functions and not isinstance(model.functions[q].node, ast.Lambda):
+                                out += [x.id for x in ast.walk(model.functions[q].node) if isinstance(x, ast.Name) and model.resolve_name(c.module, x.id) in model.classes]
     return out
 
 
